@@ -32,7 +32,7 @@ def softDone (c : Ctx) : Ctx :=
 def gateNested (st : Static) (c : Ctx) : M Ctx :=
   let r := c.req
   if r.holds == 0 && !r.flags.responded && st.need.subset r.flags then
-    if r.soft == 0 then throw (.assertFail "iauth_accept re-entered from pre_registered (use after free)")
+    if r.soft == 0 || r.flags.timedOut then throw (.assertFail "iauth_accept re-entered from pre_registered (use after free)")
     else if !r.flags.softDone then pure (softDone c)
     else pure c
   else pure c
@@ -95,7 +95,7 @@ def kill (c : Ctx) (reason : Bytes) : M Ctx := do
 def gate (st : Static) (c : Ctx) : M Ctx :=
   let r := c.req
   if r.holds == 0 && !r.flags.responded && st.need.subset r.flags then
-    if r.soft == 0 then accept st c
+    if r.soft == 0 || r.flags.timedOut then accept st c
     else if !r.flags.softDone then pure (softDone c)
     else pure c
   else pure c
@@ -280,11 +280,13 @@ def xqReply (st : Static) (c : Ctx) (service : Bytes) (reply : Option Bytes) : M
       | some rep =>
         if startsWith (b "OK") rep && (rep.length == 2 || rep.getD 2 0 == 32) then
           let cli := { cli with ok := maskAdd cli.ok i }
-          if rep.length == 2 then
+          if rep.length == 2 || rep.length == 3 || rep.getD 3 0 == 32 then
+            -- plain OK, or OK followed by a blank account: no stamp
             finish c cli { srv with goodNoAcct := srv.goodNoAcct + 1 }
           else if srv.ty == .login || srv.ty == .loginIpr || srv.ty == .combined then
+            let hadAccount := !c.req.account.isEmpty
             let c := updReq c fun r => { r with account := setAccount (rep.drop 3) }
-            let c := if cli.modeBang then updReq c fun r => { r with holds := r.holds - 1 } else c
+            let c := if cli.modeBang && !hadAccount then updReq c fun r => { r with holds := r.holds - 1 } else c
             let c := if cli.modeX || cli.modeBang then c.emit (sendReq c.req (b "M") (b " :+x")) else c
             finish c cli { srv with goodAcct := srv.goodAcct + 1 }
           else
@@ -355,7 +357,7 @@ def reqEvent (st : Static) (c : Ctx) : Ev → M Ctx
     let c := updReq c fun r => { r with flags := { (r.flags.or st.need) with gotHurry := true } }
     gate st (fieldChange st false c)
   | .timeout =>
-    let c := updReq c fun r => { r with soft := 0, timer := .fired }
+    let c := updReq c fun r => { r with soft := 0, timer := .fired, flags := { r.flags with timedOut := true } }
     gate st c
 
 end Iauthd.Proto
